@@ -45,7 +45,18 @@ def _same(a, b) -> bool:
     return d == 0
 
 
+#: obligations whose failure contradicts the property (rule, construct pattern, why); every other failure is 'not recognised'
+POSITIVE: list[tuple[str, str, str]] = [
+    ('C06.R1', r':(alone|nest|member|return)$', 'degree of homogeneity obtained by typing the builder: a term of G is not of degree 1 / ln G_i not of degree 0'),
+    ('C06.R1', r':multiplicity$', 'a term of G is appended under a loop nest that does not give one term per nest / per alternative alone'),
+    ('C06.R2', r'.', 'the term of the scaled builder at mu = 1, compared symbolically with the term of the unscaled builder'),
+    ('C06.R4', r':log$', 'plain log of a sum that is 0 when every alpha of an alternative is 0'),
+    ('C06.R3', r':fields$', 'field order of the nest tuple read off the class definition'),
+]
+
+
 def run(ctx: Ctx) -> None:
+    ctx.positive_table = list(POSITIVE)
     prog = ctx.prog
     ctx.rule('C06.R1', 'generating function typing: every term of the sum returned by get_mev_generating_for_nested is homogeneous of degree 1 in y=exp(V) '
              '(nest terms and terms of alternatives alone), one term per nest and one per alternative alone; every ln G_i of get_mev_for_nested has degree 0 '
@@ -64,7 +75,8 @@ def run(ctx: Ctx) -> None:
     g = prog.func(NESTED, 'get_mev_generating_for_nested')
     it = analyse(g)
     for line, msg in it.findings:
-        ctx.add('C06.R1', 'get_mev_generating_for_nested:typing', False, (g.file, line), f'homogeneity typing fails: {msg}', msg)
+        clash = 'degrees differ' in msg or 'sum of terms of degrees' in msg
+        ctx.add('C06.R1', 'get_mev_generating_for_nested:typing', False if clash else None, (g.file, line), f'homogeneity typing fails: {msg}' if clash else f'homogeneity typing: statement not in a form the typing understands: {msg}', msg, positive=clash)
     ret_ok = it.ret is not None and it.ret.kind == 'Hom' and sp.simplify(it.ret.deg - 1) == 0
     ctx.add('C06.R1', 'get_mev_generating_for_nested:return', ret_ok, g, f'G is {it.ret}' + ('' if ret_ok else '; a nested-logit generating function is homogeneous of degree 1'), str(it.ret))
     rets = [n for n in walk_no_nested(g.node) if isinstance(n, ast.Return)]
